@@ -775,6 +775,7 @@ func (b *Broker) send(rb protocolBody, promiseResponse bool, responseHeaderVersi
 		return nil, err
 	}
 	b.correlationID++
+	verifHook("broker.send.written")
 
 	if !promiseResponse {
 		// Record request latency without the response
